@@ -120,7 +120,14 @@ def generate(job):
         if k == "toy_loop":
             op["reuse"] = ro.chance(0.6)
         ops.append(op)
-    return {"kind": "strategy", "card": card, "strategy": strategy, "bg": rm.chance(0.4), "batch": rm.choice([65000, 3, 4]), "nA": rm.choice([6, 9]), "nB": rm.choice([7, 12]), "data_seed": rm.randrange(1 << 30), "param_seed": rm.randrange(1 << 30), "ops": ops}
+    bg, sbatch = rm.chance(0.4), rm.choice([65000, 3, 4])
+    if strategy == "lazy_call" and rm.chance(0.6):
+        # directed: lazily batched samples (data + background) whose pieces are also batched on their own, in
+        # either order, with a batch size that divides the data sample
+        bg, sbatch = True, 3
+        first = [{"k": "iterate_alone", "i": 0, "seed": 1, "d": "A", "batch": 3}, {"k": "nll", "i": 0, "seed": 2, "d": "A", "batch": 3}]
+        ops = (first if rm.chance(0.5) else first[::-1]) + ops[:4]
+    return {"kind": "strategy", "card": card, "strategy": strategy, "bg": bg, "batch": sbatch, "nA": rm.choice([6, 9]), "nB": rm.choice([7, 12]), "data_seed": rm.randrange(1 << 30), "param_seed": rm.randrange(1 << 30), "ops": ops}
 
 
 # ---------------------------------------------------------------------------------- strategy sessions
@@ -137,8 +144,9 @@ class Session:
         from sim.seams import rng_seam
 
         self.np, self.spec, self.log = np, spec, log
-        self.ref = cards.build(spec["card"])
-        self.sut = cards.build(spec["card"], STRATEGIES[spec["strategy"]])
+        extra = {"bg_weight": 0.3} if spec.get("bg") else {}  # a background sample needs its weight (default 0)
+        self.ref = cards.build(spec["card"], dict(extra))
+        self.sut = cards.build(spec["card"], dict(STRATEGIES[spec["strategy"]], **extra))
         self.ramp = self.ref.get_amplitude()
         self.samp = self.sut.get_amplitude()
         vals = cards.randomize_params(self.ramp, Stream(spec["param_seed"], "p"), 0.7)
